@@ -769,6 +769,9 @@ def oracle_unbounded(ctx, unb, produced, edge, rects, utriples):
             r1, r2 = 1, MAX_ROW
         return (c1, r1, c2, r2)
 
+    def unb_axis(o, i):
+        return not isinstance(o, AddressCell) and 0 in ((o.start.col_idx, o.end.col_idx) if i == 0 else (o.start.row, o.end.row))
+
     def inter(*ds):
         c1 = max(d[0] for d in ds); r1 = max(d[1] for d in ds)
         c2 = min(d[2] for d in ds); r2 = min(d[3] for d in ds)
@@ -837,13 +840,27 @@ def oracle_unbounded(ctx, unb, produced, edge, rects, utriples):
             ctx.violation(dict(case, call='commute', cls='commute'), "operator is not commutative",
                           impl=repr([i_ab, i_ba, u_ab, u_ba]))
         if not same_cells(i_ab, inter(den(a), den(b))):
-            soft_violation(ctx, FID, dict(case, call='inter'), "intersection is not the common cells / #NULL!",
-                           impl=repr(i_ab), expected=inter(den(a), den(b)))
+            # the one known cause: the last column / row is dropped on an axis where exactly one operand is unbounded
+            da, db = list(den(a)), list(den(b))
+            for lo, hi, mx in ((0, 2, MAX_COL), (1, 3, MAX_ROW)):
+                if unb_axis(a, lo) != unb_axis(b, lo):
+                    da[hi], db[hi] = min(da[hi], mx - 1), min(db[hi], mx - 1)
+            if same_cells(i_ab, inter(da, db)):
+                soft_violation(ctx, FID, dict(case, call='inter'), "intersection is not the common cells / #NULL!",
+                               impl=repr(i_ab), expected=inter(den(a), den(b)))
+            else:
+                ctx.violation(dict(case, call='inter', cls='unbounded-inter'),
+                              "intersection is not the common cells / #NULL! (and not the known last-row/column loss)",
+                              impl=repr(i_ab), expected=inter(den(a), den(b)))
         if not same_cells(u_ab, union(den(a), den(b))):
-            soft_violation(ctx, FID, dict(case, call='union'), "union is not the least bounding rectangle",
-                           impl=repr(u_ab), expected=union(den(a), den(b)))
+            ctx.violation(dict(case, call='union', cls='unbounded-union'), "union is not the least bounding rectangle",
+                          impl=repr(u_ab), expected=union(den(a), den(b)))
         if ra == rb and (i_ab != ('ok', a) or u_ab != ('ok', a)):
-            soft_violation(ctx, FID, dict(case, call='idempotent'), "a op a is not a", impl=repr([i_ab, u_ab]))
+            if same_cells(i_ab, den(a)) and same_cells(u_ab, den(a)):
+                soft_violation(ctx, FID, dict(case, call='idempotent'), "a op a is not a", impl=repr([i_ab, u_ab]))
+            else:
+                ctx.violation(dict(case, call='idempotent', cls='unbounded-idem'), "a op a has not the cells of a",
+                              impl=repr([i_ab, u_ab]))
         reparse(case, i_ab)
         reparse(case, u_ab)
     # ---- triples
@@ -854,9 +871,16 @@ def oracle_unbounded(ctx, unb, produced, edge, rects, utriples):
         for nm, want, l, r in (('inter', inter(den(a), den(b), den(c)), lambda: (a & b) & c, lambda: a & (b & c)),
                                ('union', union(den(a), den(b), den(c)), lambda: (a ** b) ** c, lambda: a ** (b ** c))):
             gl, gr = raw(l), raw(r)
-            if gl != gr:
-                soft_violation(ctx, FID, dict(case, call=f'{nm}-assoc'), "operator is not associative",
-                               impl=repr([gl, gr]))
+            if gl != gr and nm == 'union':
+                soft_violation(ctx, FID, dict(case, call='union-assoc'), "** is not associative", impl=repr([gl, gr]))
             if not same_cells(gl, want) or not same_cells(gr, want):
-                soft_violation(ctx, FID, dict(case, call=f'{nm}3'), "three-way result differs from the set-theoretic one",
-                               impl=repr([gl, gr]), expected=want)
+                if nm == 'union':
+                    ctx.violation(dict(case, call='union3', cls='unbounded-union'),
+                                  "three-way union has not the cells of the least bounding rectangle",
+                                  impl=repr([gl, gr]), expected=want)
+                else:
+                    soft_violation(ctx, FID, dict(case, call='inter3'),
+                                   "three-way result differs from the set-theoretic one", impl=repr([gl, gr]), expected=want)
+            if nm == 'inter' and gl != gr:
+                ctx.violation(dict(case, call='inter-assoc', cls='unbounded-inter'), "& is not associative",
+                              impl=repr([gl, gr]))
